@@ -402,6 +402,8 @@ class C02(Check):
             if mode != "generate":  # generated centres are not reproducible between runs by documentation
                 variants = []
                 other_chunks = [c for c in {1 if n <= 150 else 13, 2, 7, n, n + 3, 10**6} if c != chunk]
+                if n > 5000:  # large inputs: a handful of chunks, not tens of thousands
+                    other_chunks = [c for c in {n // 3 + 1, 16384, 2**16, n, n + 3, 10**6} if c != chunk]
                 if source != "random":
                     variants.append(dict(workers=1, chunksize=int(rng.choice(other_chunks))))
                     variants.append(dict(workers=1, chunksize=chunk, buffersize=int(rng.choice([-1, 1, 5, 65536]))))
